@@ -30,10 +30,15 @@ def log(*a):
     print(*a, flush=True)
 
 
+_WID = [0]
+
+
 class Worker:
     def __init__(self, scratch, env):
         self.scratch = scratch
-        self.env = env
+        _WID[0] += 1
+        self.journal = os.path.join(scratch, 'journal.%d' % _WID[0])
+        self.env = dict(env, VERIF_JOURNAL=self.journal)
         self.p = None
         self.start()
 
@@ -46,6 +51,10 @@ class Worker:
     def run(self, ob, hard_timeout):
         if self.p.poll() is not None:
             self.start()
+        try:
+            open(self.journal, 'w').close()      # one obligation per journal
+        except OSError:
+            pass
         try:
             self.p.stdin.write(json.dumps(ob) + '\n')
             self.p.stdin.flush()
@@ -69,7 +78,8 @@ class Worker:
         if not line:
             rc = self.p.wait()
             self.start()
-            return {'id': ob['id'], 'verdict': 'crash', 'detail': 'worker died rc=%s' % rc}
+            cex = solve_journal(self.journal, ob)
+            return {'id': ob['id'], 'verdict': 'crash', 'detail': 'worker died rc=%s' % rc, 'cex': cex}
         return json.loads(line)
 
     def close(self):
@@ -78,6 +88,82 @@ class Worker:
             self.p.wait(5)
         except Exception:
             self.p.kill()
+
+
+def _pre_to_z3(pre, V):
+    """preconditions are chains like 'a < b < c', '0 <= op < 3', 'p == 0'"""
+    import re
+    import z3
+    out = []
+    toks = re.split(r'\s*(<=|<|==|>=|>)\s*', pre.strip())
+    terms = toks[0::2]
+    ops = toks[1::2]
+
+    def term(t):
+        t = t.strip()
+        if re.fullmatch(r'-?\d+', t):
+            return int(t)
+        return V(t)
+    for i, o in enumerate(ops):
+        l, r = term(terms[i]), term(terms[i + 1])
+        out.append({'<': l < r, '<=': l <= r, '==': l == r, '>=': l >= r, '>': l > r}[o])
+    return out
+
+
+def solve_journal(path, ob):
+    """Concrete arguments for the path on which the worker died: the journal
+    holds every solver decision taken on that path before the crash."""
+    try:
+        import z3
+        lines = [json.loads(l) for l in open(path) if l.strip()]
+    except Exception:       # noqa
+        return None
+    last = 0
+    for i, r in enumerate(lines):
+        if r[0] == 'PATH':
+            last = i
+    recs = lines[last + 1:]
+    names = ['k%d' % i for i in range(ob.get('nk', 0))] + [n for n, _ in ob.get('args', [])]
+    types = dict(ob.get('args', []))
+    vs = {}
+
+    def V(n):
+        if n not in vs:
+            vs[n] = z3.Int(n)
+        return vs[n]
+    s = z3.Solver()
+    nk = ob.get('nk', 0)
+    for i in range(nk - 1):
+        s.add(V('k%d' % i) < V('k%d' % (i + 1)))
+    for pre in ob.get('pre', []):
+        try:
+            s.add(*_pre_to_z3(pre, V))
+        except Exception:   # noqa
+            pass
+    bools = {}
+    for r in recs:
+        if r[0] == 'cmp' and r[1] and r[3]:
+            a, b = V(r[1]), V(r[3])
+            c = {'lt': a < b, 'gt': a > b, 'eq': a == b}[r[2]]
+            s.add(c if r[4] else z3.Not(c))
+        elif r[0] == 'sel' and r[1]:
+            if types.get(r[1]) == 'bool':
+                bools[r[1]] = bool(r[2])
+            else:
+                s.add(V(r[1]) == int(r[2]))
+        elif r[0] == 'idx' and r[1]:
+            c = V(r[1]) == int(r[2])
+            s.add(c if r[3] else z3.Not(c))
+    if str(s.check()) != 'sat':
+        return None
+    m = s.model()
+    cex = {}
+    for n in names:
+        if types.get(n) == 'bool':
+            cex[n] = bools.get(n, False)
+        else:
+            cex[n] = m.eval(V(n), model_completion=True).as_long()
+    return cex
 
 
 def run_pool(obs, scratch, env, nworkers=None, progress=None):
@@ -261,8 +347,27 @@ def _run(a, pid, spec, tier, seed, scratch, binfo, t_start, replay_ob):
         elif v in ('error',):
             harness_errors.append((r['id'], (r.get('detail') or '') + '\n' + (r.get('tb') or '')))
         elif v == 'crash':
-            # the code under test killed the interpreter on some solver-chosen path
-            harness_errors.append((r['id'], 'worker crashed: ' + str(r.get('detail'))))
+            # the code under test killed the interpreter on some solver-chosen path: the decision
+            # journal of that path was solved for concrete arguments; replay them natively
+            cex = r.get('cex')
+            rr = concrete_replay(ob, cex, scratch, ignore_known=False) if cex is not None else {}
+            if rr.get('reproduced') and rr.get('crash'):
+                h = hashlib.sha1(json.dumps([ob['id'], cex], sort_keys=True).encode()).hexdigest()[:10]
+                path = os.path.join(VERIF, 'replays', '%s-%s.json' % (pid, h))
+                os.makedirs(os.path.dirname(path), exist_ok=True)
+                json.dump({'property': pid, 'obligation': ob, 'cex': cex, 'what': 'the interpreter is killed: ' + str(rr.get('what')),
+                           'detail': r.get('detail')}, open(path, 'w'), indent=1)
+                violations.append((r['id'], path, 'the code under test kills the interpreter (%s)' % rr.get('what')))
+            elif rr.get('reproduced'):
+                h = hashlib.sha1(json.dumps([ob['id'], cex], sort_keys=True).encode()).hexdigest()[:10]
+                path = os.path.join(VERIF, 'replays', '%s-%s.json' % (pid, h))
+                os.makedirs(os.path.dirname(path), exist_ok=True)
+                json.dump({'property': pid, 'obligation': ob, 'cex': cex, 'what': rr.get('what'), 'detail': rr.get('detail')},
+                          open(path, 'w'), indent=1)
+                violations.append((r['id'], path, rr.get('what')))
+            else:
+                harness_errors.append((r['id'], 'worker crashed (%s); journal replay %r did not reproduce it: %r' % (
+                    r.get('detail'), cex, rr)))
         else:
             inconclusive.append((r['id'], r.get('detail')))
 
